@@ -224,6 +224,9 @@ func genHistory(seed int64, i int) *History {
 	if i%36 == 22 {
 		h.Kind = "active-passive"
 	}
+	if i%36 == 25 {
+		h.Kind = "active-reload" // (one of the passive-reload slots)
+	}
 	h.D = 300 + r.Intn(7)*100
 	h.M = 1 + r.Intn(3)
 	h.T = 500 + r.Intn(8)*100
@@ -283,6 +286,8 @@ func run(c *fw.Ctx) {
 					reloadShared(c, canary, h)
 				case "active-passive":
 					activePassive(c, canary, h)
+				case "active-reload":
+					activeReload(c, canary, h)
 				}
 			}(h)
 		}
@@ -727,6 +732,8 @@ func replay(c *fw.Ctx, raw json.RawMessage) {
 		reloadShared(c, canary, h)
 	case "active-passive":
 		activePassive(c, canary, h)
+	case "active-reload":
+		activeReload(c, canary, h)
 	}
 }
 
@@ -1021,4 +1028,64 @@ func activePassive(c *fw.Ctx, canary *oracle.Canary, h *History) {
 	// one more failure must take it out again (a count below zero would swallow it)
 	hmods.SelectLog(sel)
 	c.Case(fw.Hash("active-passive", outcomes), true, func() any { return map[string]any{"history": h, "outcomes": outcomes} })
+}
+
+// activeReload: the active checker has marked a refusing upstream down; the configuration is reloaded (second handler
+// for the same addresses, then the first one is stopped and cleaned up) while the upstream still refuses. Whatever the
+// old instance's clean-up does, the upstream stays out of rotation for the new instance (its own first check sees it
+// down as well); when the upstream accepts again it returns.
+func activeReload(c *fw.Ctx, canary *oracle.Canary, h *History) {
+	A, err := newUpstream()
+	if err != nil {
+		c.Inconclusive("listen: " + err.Error())
+		return
+	}
+	B, _ := newUpstream()
+	defer A.release()
+	defer B.release()
+	sel := nextTag("sel")
+	routes := proxyRoutes([]map[string]any{dial(A), dial(B)}, map[string]any{
+		"health_checks": map[string]any{"active": map[string]any{"interval": "2s", "timeout": "200ms"}}}, sel)
+	A.down()
+	app1, err := drive.StartApp(routes, "5s")
+	if err != nil {
+		report(c, h, "config-rejected", err.Error(), routes)
+		return
+	}
+	time.Sleep(500 * time.Millisecond) // the checker's first round (it runs at once) has seen A refuse
+	outcomes := ""
+	probe := func(app *drive.AppRun, phase string) {
+		at, _, _ := connect(app, A, B, nextTag("ar"), false, 5*time.Second)
+		outcomes += at.outcome[:1]
+		if at.outcome != "B" {
+			if canary.MaxOversleep() > 200*time.Millisecond {
+				c.Inconclusive("noisy scheduler")
+				return
+			}
+			report(c, h, "active-down-not-honoured", fmt.Sprintf("%s: the upstream refuses connections and the active checker has seen it, yet the connection ended as %q instead of going to the other upstream", phase, at.outcome), map[string]any{"outcomes": outcomes})
+		}
+	}
+	probe(app1, "before the reload")
+	app2, err := drive.StartApp(routes, "5s")
+	if err != nil {
+		app1.Stop()
+		report(c, h, "config-rejected", err.Error(), routes)
+		return
+	}
+	defer app2.Stop()
+	time.Sleep(400 * time.Millisecond) // the new instance's first round
+	app1.Stop()                        // the old instance is unloaded (its clean-up runs)
+	probe(app2, "right after the old configuration was unloaded")
+	time.Sleep(150 * time.Millisecond)
+	probe(app2, "150 ms after the old configuration was unloaded")
+	if err := A.upAgain(); err == nil {
+		time.Sleep(2*time.Second + 700*time.Millisecond) // one interval + timeout + margin
+		at, _, _ := connect(app2, A, B, nextTag("ar"), false, 5*time.Second)
+		outcomes += "/" + at.outcome[:1]
+		if at.outcome != "A" && canary.MaxOversleep() <= 300*time.Millisecond {
+			report(c, h, "active-up-again-selected", fmt.Sprintf("the upstream accepts again for more than one check interval, the connection ended as %q", at.outcome), nil)
+		}
+	}
+	hmods.SelectLog(sel)
+	c.Case(fw.Hash("active-reload", outcomes), true, func() any { return map[string]any{"history": h, "outcomes": outcomes} })
 }
